@@ -23,6 +23,7 @@ META = {
                     "as_euler('XYZ') and re-validated against the oracle before use (gimbal-lock cases skipped)",
                     "tolerance: max(5e-6, 1e-9 |p|); 5e-6 max(1,|p|) if an input rotation vector lies in (0, 2e-6)"],
 }
+REQUIRED_REACH = ['general/faser_transform.py:tm.__init__', 'general/faser_transform.py:tm.__matmul__', 'general/faser_transform.py:tm.inv', 'general/basic_helpers.py:localToGlobal', 'general/basic_helpers.py:globalToLocal']
 REQUIRED_CLAUSES = ["ctor.list6", "ctor.arr6", "ctor.arr6x1", "ctor.list3", "ctor.arr3", "ctor.rpy6", "ctor.rpy3", "ctor.pair_rpy", "ctor.list7",
                     "ctor.arr7", "ctor.mat4", "ctor.columns", "ctor.pair", "ctor.tm", "ctor.objarr", "quat.roundtrip", "matmul", "inv",
                     "assoc", "matmul.ndarray", "l2g", "g2l", "l2g.g2l.inverse"]
